@@ -8,9 +8,11 @@ Model driver of the `journal` component (`hqm-journal`). Trace protocol: /verif/
   case <idx> <subseed> hdr=<H> …            H = byte length of the journal header
   op rec <size> <RECORD…>                   the real writer appended this record (`size` bytes) to journal J
   op restore <k> <extra>                    restore from J cut after k records + `extra` bytes of the next one
+  op resume <k> <extra> <size> <rec>        restore from that cut, reopen (truncate), append <rec> of <size> bytes, restore again
   op prune <k> <liveJobs> <liveWorkers>     P := prune(J cut after k records)
   op papp <RECORD…>                         append a record to P
   op pprune <liveJobs> <liveWorkers>        P := prune(P)
+  op sprune <k> <jobs> <workers> <k2>       journal thread: k events, prune request, events k..k2; records of the file
   op prestore                               restore from P
 -/
 open HqModel HqModel.Proto HqModel.Journal HqModel.Job
@@ -206,6 +208,48 @@ def doRestore (s : DState) (k extra : Nat) : List String :=
         | .error e => [showStop e]
         | .ok x => restoreOut r x
 
+/-- `resume k extra size rec`: restore from the cut file, reopen it with `truncateAppend` at the position the reader
+reported (`create_or_append(path, truncate_size)`; no truncation after a clean end), append one record of `size`
+bytes, and restore from the resulting file -/
+def doResume (s : DState) (k extra size : Nat) (rec : Record) : List String :=
+  let sizes := (s.J.toList.map (·.2))
+  let full := (sizes.take k).flatMap sizeEnc
+  let tail := match sizes[k]? with
+    | some n => (sizeEnc n).take extra
+    | none => []
+  let file := hdrBytes s.hdr ++ full ++ tail
+  match readAll sizeCodec (hdrBytes s.hdr) file with
+  | none => ["out res err open"]
+  | some rr =>
+    let recs := (s.J.toList.take rr.records.length).map (·.1)
+    -- first restart
+    match restorerFold recs with
+    | .error e => [showStop e]
+    | .ok r =>
+      match rr.status with
+      | .corrupt => ["out res err corrupt"]
+      | st =>
+        match restoreJobs r with
+        | .error e => [showStop e]
+        | .ok _ =>
+          let file2 := truncateAppend sizeCodec file (if st == .partialTail then rr.position else file.length) [size]
+          -- second restart
+          match readAll sizeCodec (hdrBytes s.hdr) file2 with
+          | none => ["out res err open"]
+          | some rr2 =>
+            let all := recs ++ [rec]
+            let recs2 := all.take rr2.records.length
+            match restorerFold recs2 with
+            | .error e => [showStop e]
+            | .ok r2 =>
+              match rr2.status with
+              | .corrupt => ["out res err corrupt"]
+              | st2 =>
+                let r2 := if st2 == .partialTail then { r2 with truncate := some rr2.position } else r2
+                match restoreJobs r2 with
+                | .error e => [showStop e]
+                | .ok x => restoreOut r2 x
+
 def doRestoreList (recs : List Record) : List String :=
   match restore recs with
   | .error e => [showStop e]
@@ -223,12 +267,23 @@ def step (s : DState) : List String → DState × List String
     match k.toNat?, extra.toNat? with
     | some k, some e => (s, doRestore s k e)
     | _, _ => (s, ["out !bad-op"])
+  | "resume" :: k :: extra :: size :: rest =>
+    match k.toNat?, extra.toNat?, size.toNat?, parseRecord rest with
+    | some k, some e, some n, some r => (s, doResume s k e n r)
+    | _, _, _, _ => (s, ["out !bad-op"])
   | ["prune", k, lj, lw] =>
     match k.toNat?, parseNatList lj, parseNatList lw with
     | some k, some lj, some lw =>
       let p := prune lj lw ((s.J.toList.take k).map (·.1))
       ({ s with P := p }, showPruned p)
     | _, _, _ => (s, ["out !bad-op"])
+  | ["sprune", k, lj, lw, k2] =>
+    -- the journal thread: k events, prune with the live sets, the events k..k2
+    match k.toNat?, parseNatList lj, parseNatList lw, k2.toNat? with
+    | some k, some lj, some lw, some k2 =>
+      let all := s.J.toList.map (·.1)
+      (s, showPruned (prune lj lw (all.take k) ++ (all.drop k).take (k2 - k)))
+    | _, _, _, _ => (s, ["out !bad-op"])
   | "papp" :: rest =>
     match parseRecord rest with
     | some r => ({ s with P := s.P ++ [r] }, [])
